@@ -36,7 +36,8 @@ def plan(tier, seed):
 
 def minimums(tier):
     return {"agree.checked": 2000, "order.checked": 2000, "reverse.checked": 400, "extension.checked": 400,
-            "fields.compared": 20000, "hex.checked": 300, "src.compared": 2000, "fresh.process_runs": 40}
+            "fields.compared": 20000, "hex.checked": 300, "src.compared": 2000, "fresh.process_runs": 40,
+            "dir.with_pel_beyond_16k": 40}
 
 
 def rand_sel(rng):
@@ -62,6 +63,14 @@ def run(spec, ctx):
         n = rng.choice([0, 1, 2, 3, 5, 8, 13, 20, 40]) if rng.random() < 0.6 else rng.randrange(0, 25)
         d = dirs.PelDir(os.path.join(root, "d%d" % i))
         ents = dirs.gen_dir_model(rng, u, n, reg=reg, with_ps=0.75)
+        if ents and i % 3 == 1:
+            # one log well beyond the usual size (17 KiB .. 150 KiB: more than one read buffer, more than "16 KiB"): sections
+            # are 16-bit sized and there may be up to 255 of them, so this is a well-formed PEL like the others
+            big = rng.choice(ents)
+            for _ in range(rng.choice([5, 9, 36])):
+                big.pel.sections.append(pm.sec_generic(rng, u, rng.choice([b"EI", b"ZZ"]), pm.gen_payload(rng, u, 4096)))
+            big.data = big.pel.encode()
+            ctx.count("dir.with_pel_beyond_16k")
         d.extend(ents)
         if rng.random() < 0.3 and ents:      # a nested directory with more PELs must be ignored
             sub = dirs.gen_dir_model(rng, u, 2, reg=reg)
